@@ -3,7 +3,10 @@ use crate::protocols::valve::{get_optional_extracted_data, Server, ServerPlayer}
 use crate::protocols::{valve, GenericResponse};
 use crate::GDErrorKind::PacketBad;
 use crate::GDResult;
+#[cfg(not(gamedig_verif))]
 use std::collections::HashMap;
+#[cfg(gamedig_verif)]
+use crate::verif_hook::collections::HashMap;
 
 #[cfg(feature = "serde")]
 use serde::{Deserialize, Serialize};
